@@ -27,6 +27,7 @@ class Session:
         self.faults = list(sc.get("faults") or ([sc["fault"]] if sc.get("fault") else []))   # [{"at": "send"|"recv"|"op", "n": k, "kind": "raise"|"eof"}]
         self.peer_gone = False
         self.chunk = sc.get("chunk", 4096)
+        self.sendchunk = sc.get("sendchunk", 0)      # > 0: the network accepts at most that many bytes per send() (partial sends)
         self.budget = sc.get("budget", 400000)
         self.fault_fired = False
 
@@ -50,11 +51,15 @@ class Session:
         if f:
             self.fault_fired = True
             self.ev({"k": "fault", "at": "send", "kind": f["kind"], "n": self.sends})
+            self.txbuf = b""                     # whatever part of the frame the network had taken is the network's loss, not a frame
             if f["kind"] == "eof":
                 self.peer_gone = True
             raise _socket.error("scripted send failure")
         if self.peer_gone:
+            self.txbuf = b""
             raise _socket.error("peer gone")
+        if self.sendchunk and len(data) > self.sendchunk:
+            data = bytes(data)[:self.sendchunk]
         self.txbuf += bytes(data)
         while len(self.txbuf) >= 24 and len(self.txbuf) >= 24 + (self.txbuf[2] | self.txbuf[3] << 8):
             n = 24 + (self.txbuf[2] | self.txbuf[3] << 8)
